@@ -80,6 +80,13 @@ def run(ctx):
     from pv.ref import bridge, sv
 
     ctx.budget_s += ctx.elapsed()  # the soft budget counts work, not the (load-dependent) import of pennylane
+    _viol = ctx.violation
+
+    def _counted_violation(*a, **k):  # every violation is also counted per mechanism (the witness list itself is capped)
+        ctx.count("mech:" + str(k.get("mech")))
+        return _viol(*a, **k)
+
+    ctx.violation = _counted_violation
     rng = ctx.rng
     ang = lambda: num.angle(rng)  # noqa: E731
 
